@@ -314,6 +314,21 @@ def check(case, log):
           wk = [a for a in ix.acts if a[4] == "wake" and a[5] == tid and a[6] and a[0] > rseq]
           if wk:
             fail("wake-lost", "%s blocked at %s, was woken by %s at %s and never ran again" % (tid, rtime, wk[0][1], wk[0][3]))
+        elif kind == "acquire" and op.get("blocking", True):
+          # it waits for the lock: every release() after its request must have handed the lock to some waiter
+          for otid, orq in ix.reqs.items():
+            for ostep, (oseq, opc, otime, oop) in orq.items():
+              if oop["op"] == "release" and oop.get("lock") == op.get("lock") and oseq > rseq:
+                got = False
+                for atid, arq in ix.reqs.items():
+                  for astep, (aseq, apc, atime, aop) in arq.items():
+                    if aop["op"] == "acquire" and aop.get("lock") == op.get("lock"):
+                      r2 = ix.resume(atid, astep)
+                      if r2 is not None and r2[0] > oseq and r2[2] is True:
+                        got = True
+                if not got:
+                  fail("lock-waiter-never-resumed", "%s waits for lock %s since %s; %s released it at %s and no waiter ever got it" % (
+                      tid, op.get("lock"), rtime, otid, otime))
         elif kind == "call":
           stid = "%s/%d" % (tid, pc)
           if stid in ix.ends:
@@ -742,6 +757,9 @@ def labels(case, log):
       if k == "block":
         L.add("block:" + ("woken" if res else "forever"))
       if k == "call" and res:
+        # recoco's "function call" illusion (not part of the property, only counted)
+        nxt = [e for e in log[ix.ends.get("%s/%d" % (tid, pc), (res[0],))[0]:res[0] + 1] if e[0] == "step"]
+        L.add("call:caller-resumed-" + ("next" if nxt and nxt[0][1] == tid else "after-others"))
         v = res[2]
         L.add("call:" + ("exception" if isinstance(v, dict) and "exc" in v else "value"))
         if tid.count("/") >= 1:
